@@ -494,6 +494,25 @@ def check_terminators(case, res: Res) -> None:
     md = MarkdownIt(case["preset"])
     seen: set = set()
     probes: list[dict] = []  # {"name","alt","enabled"}
+    # one counting probe in each of the other chains (registered at a generated position): every enabled rule of a
+    # chain runs once per pass of that chain - core: once per parse; inline2: once per inline parse
+    counts = {"core": 0, "inline2": 0, "inline": 0}
+    other_enabled = {"core": True, "inline2": True, "inline": True}
+
+    def core_probe(state):
+        counts["core"] += 1
+
+    def inline2_probe(state):
+        counts["inline2"] += 1
+
+    def inline_probe(state, silent):
+        counts["inline"] += 1
+        return False
+
+    k0 = sum(len(str(o)) for o in case["ops"])
+    (md.core.ruler.push if k0 % 2 else (lambda n, f: md.core.ruler.after("inline", n, f)))("verif_core_probe", core_probe)
+    (md.inline.ruler2.push if k0 % 3 else (lambda n, f: md.inline.ruler2.before("balance_pairs", n, f)))("verif_inline2_probe", inline2_probe)
+    md.inline.ruler.before("text", "verif_inline_probe", inline_probe)
 
     def make(name):
         def probe(state, startLine, endLine, silent):
@@ -526,13 +545,30 @@ def check_terminators(case, res: Res) -> None:
             p = probes[op[1] % len(probes)]
             md.disable(p["name"])
             p["enabled"] = False
+            which = ["core", "inline2", "inline"][op[1] % 3]
+            md.disable(f"verif_{which}_probe")
+            other_enabled[which] = False
         elif k == "enable":
             p = probes[op[1] % len(probes)]
             md.enable(p["name"])
             p["enabled"] = True
+            which = ["core", "inline2", "inline"][op[1] % 3]
+            md.enable(f"verif_{which}_probe")
+            other_enabled[which] = True
         elif k == "observe":
             seen.clear()
-            md.parse(EXERCISER)
+            for kk in counts:
+                counts[kk] = 0
+            toks = md.parse(EXERCISER)
+            n_inline = sum(1 for t in toks if t.type == "inline")
+            exp_counts = {"core": 1 if other_enabled["core"] else 0, "inline2": n_inline if other_enabled["inline2"] else 0}
+            got_counts = {"core": counts["core"], "inline2": counts["inline2"]}
+            if got_counts != exp_counts or (counts["inline"] > 0) != other_enabled["inline"]:
+                res.fail(
+                    "chain-pass:applied-differs-from-reported",
+                    f"{where}: probe rules ran core={counts['core']} inline2={counts['inline2']} inline={counts['inline']} times over {n_inline} inline containers; enabled={other_enabled} -> expected {exp_counts}",
+                )
+                return
             expected = {(p["name"], ln) for p in probes if p["enabled"] for ln, c in LINE_CONTEXT.items() if c in p["alt"]}
             if seen != expected:
                 extra = sorted(seen - expected)
